@@ -75,12 +75,25 @@ Inductive c04case :=
    fields after print + parse, and whether the two reflected schemas were equal *)
 | C04Text (mem txt : list fout) (same_schema : bool).
 
+(* per property: is the reflected property the declared one (RulesRead.norm_prop)? *)
+Fixpoint declared_eq (env : enum_env) (idx : N) (ds : list prop) (rs : list (option rprop)) : list bool :=
+  match ds, rs with
+  | d :: dr, r :: rr =>
+      (match r with Some r => rprop_eqb (norm_prop env idx d) r | None => false end)
+      :: declared_eq env (idx + 1)%N dr rr
+  | _, _ => []
+  end.
+
 Definition c04_check (c : c04case) : bool :=
   match c with
   | C04Case env ds obs refl same =>
-      (* the oracle's verdicts are those the exactness theorem predicts *)
+      (* whether a property reads back as declared: the Go oracle's verdict (declared
+         vs reflected schema_j5pb values), the Coq specification norm_prop compared with
+         what the real reflector returned, and the fragment rt_ok the exactness theorem
+         predicts — all three coincide *)
       match refl with
-      | Ok _ => list_eqb Bool.eqb (map rt_ok ds) same
+      | Ok rs => list_eqb Bool.eqb (map rt_ok ds) same
+                 && list_eqb Bool.eqb (declared_eq env 0%N ds rs) same
       | _ => true
       end &&
       match write_object env ds with
